@@ -18,6 +18,7 @@ package main
 import (
 	"bytes"
 	"crypto/ecdsa"
+	"encoding/json"
 	"fmt"
 	"math"
 	"math/big"
@@ -33,6 +34,7 @@ import (
 	"github.com/LemoFoundationLtd/lemochain-core/chain/types"
 	"github.com/LemoFoundationLtd/lemochain-core/common"
 	"github.com/LemoFoundationLtd/lemochain-core/common/crypto"
+	"github.com/LemoFoundationLtd/lemochain-core/store"
 )
 
 func init() { subs["c03"] = c03 }
@@ -125,6 +127,7 @@ type c03scn struct {
 	blks    []*c03blk
 	byHash  map[common.Hash]*c03blk
 	names   map[string]string // (target hash, sig bytes) -> model name
+	sigs    map[string]*c03sigInfo // sig bytes -> what the generator knows about them
 	fresh   int
 	lines   []string // op lines of this scenario (replay)
 	started bool
@@ -153,31 +156,115 @@ func (s *c03scn) addrIndex(a common.Address) int {
 	return -1
 }
 
-// sigName: the abstract signature (recovered signer, variant) for `sig` offered for block `h`.
+// c03sigInfo is what the GENERATOR knows about a byte string it made: whose key, over which hash, in
+// which form. The model name of a signature and the signer the quorum oracle counts are derived from
+// this record only — never from what the code under test recovers (that is cross-checked against it:
+// c03/fed-fact/signer).
+type c03sigInfo struct {
+	key  int         // index in s.keys; -1: a key that belongs to no candidate
+	hash common.Hash // the hash that was signed
+	form int         // 0 crypto.Sign output, 1 its re-encoding (r, N-s, v^1), 2 another nonce, 3 recovery byte destroyed
+}
+
+func (s *c03scn) ptrIndex(k *ecdsa.PrivateKey) int {
+	for i, x := range s.keys {
+		if x == k {
+			return i
+		}
+	}
+	return -1
+}
+
+func (s *c03scn) reg(sig []byte, key int, h common.Hash, form int) []byte {
+	if _, ok := s.sigs[string(sig)]; !ok {
+		s.sigs[string(sig)] = &c03sigInfo{key, h, form}
+	}
+	return sig
+}
+
+// signKey: the deterministic signature of hash h with key k (a candidate's or an outside key).
+func (s *c03scn) signKey(k *ecdsa.PrivateKey, h common.Hash) []byte {
+	return s.reg(c03sign(k, h), s.ptrIndex(k), h, 0)
+}
+
+// mall: the equivalent encoding (r, N-s, v^1) of a registered signature.
+func (s *c03scn) mall(sig []byte) []byte {
+	in := s.sigs[string(sig)]
+	if in == nil {
+		panic("c03: malleating an unregistered signature")
+	}
+	form := 1
+	if in.form == 1 {
+		form = 0
+	}
+	return s.reg(malleate(sig), in.key, in.hash, form)
+}
+
+// constructedSigner: the candidate (index in s.keys) whose signature OF HASH h this byte string is by
+// construction; -1 if it is nobody's signature of h (other hash, outside key, destroyed).
+func (s *c03scn) constructedSigner(h common.Hash, sig []byte) int {
+	in := s.sigInfo(h, sig)
+	if in == nil || in.form == 3 || in.hash != h {
+		return -1
+	}
+	return in.key
+}
+
+// sigInfo looks a byte string up; the only signatures the harness does not make itself are the
+// receiver's own (TryConfirm / MineBlock): deterministic, so the harness can make the same bytes.
+func (s *c03scn) sigInfo(h common.Hash, sig []byte) *c03sigInfo {
+	if in := s.sigs[string(sig)]; in != nil {
+		return in
+	}
+	if bytes.Equal(sig, c03sign(s.rkey, h)) {
+		s.reg(sig, s.ptrIndex(s.rkey), h, 0)
+		return s.sigs[string(sig)]
+	}
+	return nil
+}
+
+// sigName: the abstract signature (signer, variant) for `sig` offered for / stored with block hash `h`,
+// BY CONSTRUCTION; the real recovery is cross-checked against it.
 func (s *c03scn) sigName(h common.Hash, sig []byte) string {
 	key := string(h[:]) + string(sig)
 	if v, ok := s.names[key]; ok {
 		return v
 	}
-	var name string
+	in := s.sigInfo(h, sig)
 	nodeID, err := types.BytesToSignData(sig).RecoverNodeID(h)
-	if err != nil {
+	var name string
+	switch {
+	case in == nil:
+		s.c.Fail("c03/fed-fact/unknown-signature", fmt.Sprintf("a signature the harness never made is stored with / offered for block %x", h[:4]), s.replay())
+		s.fresh++
+		name = fmt.Sprintf("x.%d", 900000+s.fresh)
+	case in.form == 3:
 		s.fresh++
 		name = fmt.Sprintf("x.%d", s.fresh)
-	} else if i := s.keyIndex(nodeID); i >= 0 {
-		canon, _ := crypto.Sign(h[:], s.keys[i])
-		switch {
-		case bytes.Equal(canon, sig):
-			name = fmt.Sprintf("%d.0", i)
-		case bytes.Equal(malleate(canon), sig):
-			name = fmt.Sprintf("%d.1", i)
+		if err == nil {
+			s.c.Fail("c03/fed-fact/signer", fmt.Sprintf("RecoverNodeID accepts a signature whose recovery byte was destroyed (block %x)", h[:4]), s.replay())
+		}
+	case in.hash == h && in.key >= 0:
+		switch in.form {
+		case 0, 1:
+			name = fmt.Sprintf("%d.%d", in.key, in.form)
 		default:
 			s.fresh++
-			name = fmt.Sprintf("%d.%d", i, s.fresh+1)
+			name = fmt.Sprintf("%d.%d", in.key, s.fresh+1)
 		}
-	} else {
+		if err != nil || !bytes.Equal(nodeID, crypto.PrivateKeyToNodeID(s.keys[in.key])) {
+			s.c.Fail("c03/fed-fact/signer", fmt.Sprintf("RecoverNodeID(hash %x, sig) does not give node %d, which made this signature of this hash (err=%v)", h[:4], in.key, err), s.replay())
+		}
+	default:
+		// a signature of ANOTHER hash, or by a key that belongs to no candidate: for this block it is the
+		// signature of nobody the node knows
 		s.fresh++
 		name = fmt.Sprintf("%d.0", 2000+s.fresh)
+		if err != nil {
+			s.c.Fail("c03/fed-fact/signer", fmt.Sprintf("RecoverNodeID fails on a well-formed signature (of another hash / by an outside key) offered for block %x: %v", h[:4], err), s.replay())
+		} else if i := s.keyIndex(nodeID); i >= 0 {
+			s.c.Fail("c03/fed-fact/signer", fmt.Sprintf("RecoverNodeID(hash %x, sig) gives candidate %d for a signature that is not a signature of this hash by any candidate (constructed: key %d over hash %x)", h[:4], i, in.key, in.hash[:4]), s.replay())
+		}
 	}
 	s.names[key] = name
 	return name
@@ -205,7 +292,7 @@ func c03sign(k *ecdsa.PrivateKey, hh common.Hash) []byte {
 	return g
 }
 
-// genSig makes one signature offered for block b; the class is counted.
+// genSig makes one signature offered for block b; key, signed hash and form are recorded (reg).
 func (s *c03scn) genSig(b *c03blk, prev [][]byte) []byte {
 	c := s.c
 	h := b.hash
@@ -216,50 +303,52 @@ func (s *c03scn) genSig(b *c03blk, prev [][]byte) []byte {
 		// as it was, or re-encoded by a peer
 		if x < 7 {
 			c.Count("sig:self-malleated")
-			return malleate(c03sign(s.rkey, h))
+			return s.mall(s.signKey(s.rkey, h))
 		}
 		c.Count("sig:self-canonical")
-		return c03sign(s.rkey, h)
+		return s.signKey(s.rkey, h)
 	}
 	switch {
 	case x < 52:
 		c.Count("sig:deputy")
-		return c03sign(dep(), h)
+		return s.signKey(dep(), h)
 	case x < 59:
 		c.Count("sig:miner-malleated")
-		return malleate(b.blk.Header.SignData)
+		return s.mall(b.blk.Header.SignData)
 	case x < 66:
 		c.Count("sig:deputy-malleated")
-		return malleate(c03sign(dep(), h))
+		return s.mall(s.signKey(dep(), h))
 	case x < 72:
 		c.Count("sig:miner-canonical")
 		return append([]byte{}, b.blk.Header.SignData...)
 	case x < 78:
 		c.Count("sig:non-deputy")
-		return c03sign(detKey(fmt.Sprintf("outsider-%d", c.Rnd.Intn(3))), h)
+		return s.signKey(detKey(fmt.Sprintf("outsider-%d", c.Rnd.Intn(3))), h)
 	case x < 84:
 		c.Count("sig:other-hash")
 		other := s.blks[c.Rnd.Intn(len(s.blks))]
 		if other.hash == h {
-			return c03sign(dep(), common.Hash{7})
+			return s.signKey(dep(), common.Hash{7})
 		}
-		return c03sign(dep(), other.hash)
+		return s.signKey(dep(), other.hash)
 	case x < 89:
 		c.Count("sig:unrecoverable")
-		g := c03sign(dep(), h)
+		k := dep()
+		g := c03sign(k, h)
 		g[64] = byte(4 + c.Rnd.Intn(200))
-		return g
+		return s.reg(g, s.ptrIndex(k), h, 3)
 	case x < 95:
 		if len(prev) > 0 {
 			c.Count("sig:dup-in-packet")
 			return append([]byte{}, prev[c.Rnd.Intn(len(prev))]...)
 		}
 		c.Count("sig:deputy")
-		return c03sign(dep(), h)
+		return s.signKey(dep(), h)
 	default:
 		c.Count("sig:deputy-other-nonce")
 		nonce := new(big.Int).SetInt64(int64(2 + c.Rnd.Intn(1000000)))
-		return c03signNonce(h[:], dep(), nonce)
+		k := dep()
+		return s.reg(c03signNonce(h[:], k, nonce), s.ptrIndex(k), h, 2)
 	}
 }
 
@@ -315,16 +404,14 @@ func (s *c03scn) depsIdx(h uint32) []int {
 	return out
 }
 
-// signerSet: the model numbers the stored signatures of b (header first) recover to (-1: nobody known).
+// signerNodes: the candidates whose signatures OF THIS BLOCK the stored signatures of b (header first)
+// are BY CONSTRUCTION (-1: nobody's); the code's own recovery is not asked.
 func (s *c03scn) signerNodes(b *types.Block) []int {
 	h := b.Hash()
 	all := append([][]byte{b.Header.SignData}, c03bytes(b.Confirms)...)
 	out := make([]int, len(all))
 	for i, g := range all {
-		out[i] = -1
-		if id, err := types.BytesToSignData(g).RecoverNodeID(h); err == nil {
-			out[i] = s.keyIndex(id)
-		}
+		out[i] = s.constructedSigner(h, g)
 	}
 	return out
 }
@@ -573,8 +660,14 @@ func (s *c03scn) observe(res string) string {
 					}
 				}
 			}
-			for _, n := range nodes {
-				if (n < 0 || !isDep[n]) && cause == "other" {
+			for i, n := range nodes {
+				if n < 0 && cause == "other" {
+					// a stored signature that is nobody's signature of this block was counted
+					cause = "non-deputy-counted"
+					if in := s.sigInfo(st.Hash(), all[i]); in != nil && in.form != 3 && in.key >= 0 && in.hash != st.Hash() {
+						cause = "foreign-hash-signature-counted"
+					}
+				} else if n >= 0 && !isDep[n] && cause == "other" {
 					cause = "non-deputy-counted"
 				}
 			}
@@ -702,6 +795,11 @@ func (s *c03scn) mine() {
 		return
 	}
 	b = &c03blk{id: len(s.blks), blk: blk, hash: blk.Hash(), parent: parent.id, height: blk.Height(), miner: s.rself, valid: true}
+	// the header signature of a block this node mined is its own deterministic signature of the hash
+	if !bytes.Equal(blk.Header.SignData, c03sign(s.rkey, b.hash)) {
+		c.Fail("c03/fed-fact/signer", "the header signature of the block the receiver mined is not crypto.Sign(hash, its key)", s.replay())
+	}
+	s.reg(blk.Header.SignData, s.ptrIndex(s.rkey), b.hash, 0)
 	s.describeSnapshot(b)
 	// rank of the new hash among the known ones
 	lo, hi := 0, c03rankStep*(len(s.blks)+2)
@@ -752,7 +850,7 @@ func c03newScn(c *Ctx, nDep, dc int, T, I uint32, rself int) *c03scn {
 	params.TermDuration, params.InterimDuration = T, I
 	now := uint32(time.Now().Unix())
 	w := NewWorld(nDep, now-500000, 10000)
-	s := &c03scn{c: c, w: w, nDep: nDep, dc: dc, T: T, I: I, byHash: map[common.Hash]*c03blk{}, names: map[string]string{}}
+	s := &c03scn{c: c, w: w, nDep: nDep, dc: dc, T: T, I: I, byHash: map[common.Hash]*c03blk{}, names: map[string]string{}, sigs: map[string]*c03sigInfo{}}
 	s.keys = append(s.keys, w.DeputyKeys...)
 	s.rself = rself
 	if rself == c03outsider {
@@ -776,20 +874,36 @@ func (s *c03scn) close() {
 	Safe(func() string { s.R.Close(); return "" })
 }
 
-// describeSnapshot fills nextDep / snapBad from Block.DeputyNodes.
+// describeSnapshot fills nextDep / snapBad from Block.DeputyNodes. snapBad ("a term record cannot be made
+// of this list") is decided by the harness' own reading of the rules — the list is not empty, the ranks
+// are 0..n-1 in order, the votes do not increase along the ranks — and the real NewTermRecord is
+// cross-checked against it (c03/fed-fact/snap-bad).
 func (s *c03scn) describeSnapshot(b *c03blk) {
 	b.nextDep = "-"
-	if len(b.blk.DeputyNodes) == 0 {
+	if len(b.blk.DeputyNodes) > 0 {
+		var ns []string
+		for _, d := range b.blk.DeputyNodes {
+			ns = append(ns, fmt.Sprintf("%d", s.keyIndex(d.NodeID)))
+		}
+		b.nextDep = strings.Join(ns, ",")
+	}
+	if b.height%s.T != 0 {
 		return
 	}
-	var ns []string
-	for _, d := range b.blk.DeputyNodes {
-		ns = append(ns, fmt.Sprintf("%d", s.keyIndex(d.NodeID)))
+	nodes := b.blk.DeputyNodes
+	bad := len(nodes) == 0
+	for i, d := range nodes {
+		if d.Rank != uint32(i) {
+			bad = true
+		}
+		if i > 0 && d.Votes.Cmp(nodes[i-1].Votes) > 0 {
+			bad = true
+		}
 	}
-	b.nextDep = strings.Join(ns, ",")
-	if deputynode.IsSnapshotBlock(b.height) {
-		ok := Safe(func() string { deputynode.NewTermRecord(b.height, CloneBlock(b.blk).DeputyNodes); return "ok" })
-		b.snapBad = ok != "ok"
+	b.snapBad = bad
+	real := Safe(func() string { deputynode.NewTermRecord(b.height, CloneBlock(b.blk).DeputyNodes); return "ok" }) != "ok"
+	if real != bad {
+		s.c.Fail("c03/fed-fact/snap-bad", fmt.Sprintf("NewTermRecord(height %d, deputy list of the block) panics=%v, the rules (non-empty, ranks 0..n-1, votes non-increasing) say bad=%v", b.height, real, bad), nil)
 	}
 }
 
@@ -819,7 +933,17 @@ func (s *c03scn) build(parent *c03blk, t uint32, txs types.Transactions) *c03blk
 		s.c.Fail("c03/harness-build", fmt.Sprintf("builder rejected its own block (parent %d, t %d): %s", parent.id, t, ins), nil)
 		return nil
 	}
-	b := &c03blk{id: len(s.blks), blk: blk, hash: blk.Hash(), parent: parent.id, height: blk.Height(), miner: s.addrIndex(blk.MinerAddress()), valid: true, built: true, alive: true}
+	miner := s.addrIndex(blk.MinerAddress())
+	if k, e := s.B.InTurn(parent.blk, t); e == nil && s.ptrIndex(k) != miner {
+		s.c.Fail("c03/fed-fact/miner", fmt.Sprintf("the block names miner %d, the deputy in turn is %d", miner, s.ptrIndex(k)), nil)
+	}
+	b := &c03blk{id: len(s.blks), blk: blk, hash: blk.Hash(), parent: parent.id, height: blk.Height(), miner: miner, valid: true, built: true, alive: true}
+	// the header signature: the builder signed this hash with the miner's key (deterministic)
+	if miner < 0 || !bytes.Equal(blk.Header.SignData, c03sign(s.keys[miner], b.hash)) {
+		s.c.Fail("c03/fed-fact/signer", fmt.Sprintf("the header signature of the built block %d is not crypto.Sign(hash, key of its miner %d)", b.id, miner), nil)
+		return nil
+	}
+	s.reg(blk.Header.SignData, miner, b.hash, 0)
 	s.describeSnapshot(b)
 	s.blks = append(s.blks, b)
 	s.byHash[b.hash] = b
@@ -833,6 +957,7 @@ func (s *c03scn) corrupt(b *c03blk) *c03blk {
 	nb.Header.VersionRoot[0] ^= 0x55
 	Resign(nb, s.keys[b.miner])
 	x := &c03blk{id: len(s.blks), blk: nb, hash: nb.Hash(), parent: b.parent, height: b.height, miner: b.miner, valid: false, nextDep: b.nextDep, snapBad: b.snapBad}
+	s.reg(nb.Header.SignData, b.miner, x.hash, 0)
 	s.blks = append(s.blks, x)
 	s.byHash[x.hash] = x
 	return x
@@ -868,7 +993,7 @@ func (s *c03scn) stabilizeOnBuilder(b *c03blk) bool {
 	var sigs []types.SignData
 	for _, d := range s.B.DM.GetDeputiesByHeight(b.height, true) {
 		if i := s.keyIndex(d.NodeID); i >= 0 && i != b.miner {
-			sigs = append(sigs, types.BytesToSignData(c03sign(s.keys[i], b.hash)))
+			sigs = append(sigs, types.BytesToSignData(c03sign(s.keys[i], b.hash))) // builder only
 		}
 	}
 	res := Safe(func() string {
@@ -918,6 +1043,7 @@ func c03(c *Ctx) {
 		}
 	}
 	c.Count("tt-sweep")
+	c03twoThirdsReal(c)
 
 	c03regressions(c)
 	for iter := 0; iter < c.N; iter++ {
@@ -936,8 +1062,8 @@ func c03regressions(c *Ctx) {
 		b2 := s.build(b1, b1.blk.Time()+1, nil)
 		s.start()
 		s.deliverBlock(b1, b1.blk.Header.SignData, nil)
-		s.deliverConfirms(b1, 1, [][]byte{malleate(b1.blk.Header.SignData)})
-		s.deliverBlock(b2, b2.blk.Header.SignData, [][]byte{malleate(b2.blk.Header.SignData)})
+		s.deliverConfirms(b1, 1, [][]byte{s.mall(b1.blk.Header.SignData)})
+		s.deliverBlock(b2, b2.blk.Header.SignData, [][]byte{s.mall(b2.blk.Header.SignData)})
 		if got := s.R.DM.TwoThirdDeputyCount(1); got != 2 {
 			c.Fail("c03/two-thirds-float", fmt.Sprintf("TwoThirdDeputyCount with 3 deputies = %d", got), nil)
 		}
@@ -955,12 +1081,12 @@ func c03regressions(c *Ctx) {
 		}
 		b2 := s.build(b1, b1.blk.Time()+1, nil)
 		s.start()
-		s.deliverBlock(b1, b1.blk.Header.SignData, [][]byte{malleate(c03sign(s.rkey, b1.hash))})
+		s.deliverBlock(b1, b1.blk.Header.SignData, [][]byte{s.mall(s.signKey(s.rkey, b1.hash))})
 		// same through tryConfirmStable: b1 becomes stable as an ancestor of b2 and still lacks confirms
 		var sigs [][]byte
 		for i := 0; i < 4; i++ {
 			if i != b2.miner && i != s.rself {
-				sigs = append(sigs, c03sign(s.keys[i], b2.hash))
+				sigs = append(sigs, s.signKey(s.keys[i], b2.hash))
 			}
 		}
 		s.deliverBlock(b2, b2.blk.Header.SignData, sigs)
@@ -1006,10 +1132,75 @@ func c03snapshotPanic(c *Ctx) {
 		t += 10
 	}
 	s.start()
+	panicked := false
 	for _, b := range chain {
-		s.deliverBlock(b, b.blk.Header.SignData, nil)
+		if s.deliverBlock(b, b.blk.Header.SignData, nil) == "panic" {
+			panicked = true
+		}
 	}
 	c.Count("regression:snapshot-panic")
+	// by construction the deputy list of block 6 has votes [50000, 100004] along the ranks: not loadable
+	if len(chain) >= 6 && !chain[5].snapBad {
+		c.Fail("c03/fed-fact/snap-bad", "the snapshot block of the regression scenario (votes rising along the ranks) is not classified as bad", s.replay())
+	}
+	if !panicked && c03findingOpen("c10/snapshot-deputies-not-loadable") {
+		c.Fail("c03/regression-not-reproduced/snapshot-panic", "C10's finding c10/snapshot-deputies-not-loadable is registered as open, but the snapshot block with rising votes no longer makes UpdateStable panic: the witness of c03/panic-after-stable-commit is stale", s.replay())
+	}
+}
+
+// c03findingOpen reads /verif/known_findings.json (two levels above the -out directory check uses).
+func c03findingOpen(sig string) bool {
+	for _, p := range []string{"../../known_findings.json", "/verif/known_findings.json"} {
+		buf, err := os.ReadFile(p)
+		if err != nil {
+			continue
+		}
+		var d struct {
+			Findings []struct {
+				Sig    string `json:"sig"`
+				Status string `json:"status"`
+			} `json:"findings"`
+		}
+		if json.Unmarshal(buf, &d) != nil {
+			continue
+		}
+		for _, f := range d.Findings {
+			if f.Sig == sig && (f.Status == "" || f.Status == "open") {
+				return true
+			}
+		}
+		return false
+	}
+	return false
+}
+
+type c03noBlocks struct{}
+
+func (c03noBlocks) GetBlockByHeight(height uint32) (*types.Block, error) {
+	return nil, store.ErrBlockNotExist
+}
+
+// c03twoThirdsReal calls the REAL Manager.TwoThirdDeputyCount for terms of 1..200 deputies (the `tt` sweep
+// above is a transcription of its float expression, not a call).
+func c03twoThirdsReal(c *Ctx) {
+	oldT := params.TermDuration
+	params.TermDuration = 1000000
+	defer func() { params.TermDuration = oldT }()
+	for n := 1; n <= 200; n++ {
+		var ds types.DeputyNodes
+		for i := 0; i < n; i++ {
+			ds = append(ds, &types.DeputyNode{MinerAddress: common.BigToAddress(big.NewInt(int64(5000 + i))), NodeID: []byte{byte(i >> 8), byte(i), 1}, Rank: uint32(i), Votes: big.NewInt(int64(1000 - i))})
+		}
+		got := Safe(func() string {
+			dm := deputynode.NewManager(65536, c03noBlocks{})
+			dm.SaveSnapshot(0, ds)
+			return fmt.Sprintf("%d", dm.TwoThirdDeputyCount(1))
+		})
+		if got != fmt.Sprintf("%d", (2*n+2)/3) {
+			c.Fail("c03/two-thirds-float", fmt.Sprintf("Manager.TwoThirdDeputyCount with %d deputies = %s, want %d", n, got, (2*n+2)/3), nil)
+		}
+	}
+	c.Count("tt-real-1..200")
 }
 
 func c03scenario(c *Ctx) {
@@ -1200,7 +1391,7 @@ func c03scenario(c *Ctx) {
 			e := ev{key: float64(b.id) + c.Rnd.NormFloat64()*0.55 + float64(r)*2.5, b: b, kind: 0, hdr: b.blk.Header.SignData}
 			switch x := c.Rnd.Intn(100); {
 			case x < 10:
-				e.hdr = malleate(b.blk.Header.SignData)
+				e.hdr = s.mall(b.blk.Header.SignData)
 				c.Count("hdr:malleated")
 			case x < 15 && b.valid:
 				// signed by somebody else over the same hash: wrong signer
@@ -1208,7 +1399,7 @@ func c03scenario(c *Ctx) {
 				if c.Rnd.Intn(2) == 0 {
 					k = detKey("outsider-0")
 				}
-				e.hdr = c03sign(k, b.hash)
+				e.hdr = s.signKey(k, b.hash)
 				c.Count("hdr:other-signer")
 			}
 			if c.Rnd.Intn(100) < 35 {
@@ -1246,7 +1437,7 @@ func c03scenario(c *Ctx) {
 				var sigs [][]byte
 				for i := 0; i < len(s.keys); i++ {
 					if i != a.miner {
-						sigs = append(sigs, c03sign(s.keys[i], a.hash))
+						sigs = append(sigs, s.signKey(s.keys[i], a.hash))
 					}
 				}
 				evs = append(evs, ev{key: float64(a.id) + 0.5 + c.Rnd.Float64()*3, b: a, kind: 1, cheight: a.height, sigs: sigs})
